@@ -156,7 +156,7 @@ func c15Run(cs c15Case, path string) c15Obs {
 		}
 		r = kv.Put(key, []byte("new-value"), o)
 	case "expire":
-		r = kv.Expire(key, 3*time.Second)
+		r = kv.Expire(key, 2500*time.Millisecond)
 	case "getput":
 		r = kv.GetPut(key, []byte("new-value"))
 	case "incr":
@@ -172,7 +172,7 @@ func c15Run(cs c15Case, path string) c15Obs {
 	case "unlock":
 		r = kv.Unlock(key, tok)
 	case "lease":
-		r = kv.Lease(key, tok, 3*time.Second)
+		r = kv.Lease(key, tok, 2500*time.Millisecond)
 	case "del":
 		r = kv.Del(key)
 	case "get":
